@@ -109,6 +109,15 @@ class CursorTranslator(Translator):
                     nm = "%s[%s].%s" % (a0["referencedDecl"]["name"], ix["value"], n["name"])
                     st["declared"].add(nm)
                     return ("local", nm)
+        # `pmeta->magic` where pmeta is a cursor onto a packed header: a 32-bit field at a probed offset (spec `struct_fields`)
+        if k == "MemberExpr" and n.get("isArrow") and n.get("name") in self.spec.get("struct_fields", {}):
+            try:
+                b = self.rvalue(n["inner"][0], st)
+            except KError:
+                b = None
+            if isinstance(b, Cur):
+                fo, fs = self.spec["struct_fields"][n["name"]]
+                return ("field", Cur(b.buf, E("%s + %d" % (b.off.p(), fo), b.off.lo + fo, b.off.hi + fo) if fo else b.off), fs)
         if k == "UnaryOperator" and n.get("opcode") == "*":
             inner = self.strip(n["inner"][0])
             if not (inner["kind"] == "CallExpr"):
@@ -129,6 +138,14 @@ class CursorTranslator(Translator):
             c = lv[1]
             st["events"].append('("rd", [%s, 1])' % c.off.s)
             return E("rdU8 %s %s" % (c.buf, c.off.p()), 0, 255)
+        if lv[0] == "field":
+            c, fs = lv[1], lv[2]
+            if fs != 4:
+                raise KError("struct field of %d bytes read through a cursor" % fs)
+            st["events"].append('("rd", [%s, 4])' % c.off.s)
+            v = E("rdNat32 %s %s" % (c.buf, c.off.p()), 0, (1 << 32) - 1)
+            v.native32 = (c.buf, c.off)
+            return v
         if lv[0] == "elem":
             raise KError("read through a subscript")
         if lv[0] == "path" and lv[1] in self.cursors and not isinstance(st["mem"].get(lv[1]), Cur) and t == "ptr":
